@@ -27,6 +27,17 @@ def handle : Handler := fun op args =>
       | .ok x => "ok " ++ showMat x ++ " " ++ showRat (normInf a) ++ " " ++ showRat (normInf x)
       | .error .diag => "err"
       | .error .undef => "undef"
+  -- exact determinants for the laws evaluated on the implementation: det A, det B, det(A·B),
+  -- det(Aᵀ), det(A with rows 0 and 1 exchanged)
+  | "c05.detlaws" => withArgs (do let a ← pMat; let b ← pMat; pure (a, b)) args fun (a, b) =>
+      let sw : Mat := if a.rows ≥ 2 then swapRows a 0 1 else a
+      match det a, det b, mul a b with
+      | .ok da, .ok db, .ok ab =>
+        match det ab, det (transpose a), det sw with
+        | .ok dab, .ok dat, .ok dsw =>
+          "ok " ++ showRats [da, db, dab, dat, dsw]
+        | _, _, _ => "err"
+      | _, _, _ => "err"
   | _ => none
 
 def main : IO Unit := driverMain handle
